@@ -52,6 +52,135 @@ def parsePOp (t : String) : Option POp :=
   else if rest.startsWith "w" then some (.write side (parseHex (rest.drop 1).toString))
   else none
 
+
+/-! ### `st prog`: two programs, one per side, over the pipe model -/
+
+structure Transfer where
+  fromA : Bool
+  len : Nat
+  wchunk : Nat
+  rbuf : Nat
+deriving Repr
+
+def pat (i j : Nat) : Nat := (i * 31 + j * 7 + j / 251) % 256
+
+def patSlice (i off n : Nat) : Bytes := (List.range n).map fun x => pat i (off + x)
+
+/-- where one side is in its program -/
+structure Side where
+  idx : Nat := 0
+  off : Nat := 0
+  shut : Bool := false
+  extra : Nat := 0
+  done : Bool := false
+deriving Repr
+
+structure ProgSt where
+  d : Duplex
+  a : Side := {}
+  b : Side := {}
+  res : List (Nat × String) := []       -- verdict per transfer
+  eofA : Option String := none           -- what B saw at the end of A's stream
+  eofB : Option String := none
+
+/-- One step of one side: the next pipe operation its program asks for, applied with `pstep`. -/
+def sideStep (ts : List Transfer) (close : String) (isA : Bool) (st : ProgSt) : ProgSt :=
+  let me := if isA then st.a else st.b
+  let put := fun (st : ProgSt) (m : Side) => if isA then { st with a := m } else { st with b := m }
+  if me.done then st else
+  match ts[me.idx]? with
+  | some t =>
+    if t.fromA == isA then
+      let n := min (max t.wchunk 1) (t.len - me.off)
+      -- (only as much of the chunk as can be accepted is materialised: `Pipe.write` looks at no more - a full pipe
+      -- answers `Pending` to any non-empty write, otherwise `min (length) (room)` bytes are taken)
+      let room := (if isA then st.d.ab else st.d.ba).cap - (if isA then st.d.ab else st.d.ba).buf.length
+      let op := POp.write isA (patSlice me.idx me.off (min n (max room 1)))
+      let (r, d) := pstep st.d op
+      let st := { st with d := d }
+      match r with
+      | .count k =>
+        let off := me.off + k
+        put st (if off ≥ t.len then { me with idx := me.idx + 1, off := 0 } else { me with off := off })
+      | .pending => st
+      | _ => put st { me with done := true }
+    else
+      let want := min (max t.rbuf 1) (t.len - me.off)
+      let op := POp.read isA want
+      let (r, d) := pstep st.d op
+      let st := { st with d := d }
+      match r with
+      | .bytes [] => put { st with res := (me.idx, s!"short{me.off}") :: st.res } { me with done := true }
+      | .bytes bs =>
+        if bs != patSlice me.idx me.off bs.length then
+          put { st with res := (me.idx, s!"bad{me.off}") :: st.res } { me with done := true }
+        else
+          let off := me.off + bs.length
+          if off ≥ t.len then put { st with res := (me.idx, "ok") :: st.res } { me with idx := me.idx + 1, off := 0 }
+          else put st { me with off := off }
+      | .pending => st
+      | _ => put { st with res := (me.idx, "E") :: st.res } { me with done := true }
+  | none =>
+    -- the transfers are over: A shuts down (if asked to) and then reads to the end of B's stream (if that closes);
+    -- B first reads to the end of A's stream and then shuts down - one after the other, because a TLS shutdown writes
+    -- an alert, and two sides that both write and neither reads can block each other on a small pipe
+    let closes := fun (c : String) => (close.splitOn c).length > 1
+    let mine := if isA then "a" else "b"
+    let other := if isA then "b" else "a"
+    let sawEnd := if isA then st.eofB.isSome else st.eofA.isSome
+    let mustRead := closes other && !sawEnd
+    let mustShut := closes mine && !me.shut
+    if mustShut && (isA || !mustRead) then
+      let op := POp.shutdown isA
+      let (_, d) := pstep st.d op
+      put { st with d := d } { me with shut := true }
+    else if mustRead then
+      let op := POp.read isA 16
+      let (r, d) := pstep st.d op
+      let st := { st with d := d }
+      match r with
+      | .bytes [] =>
+        let v := if me.extra == 0 then "ok" else s!"extra{me.extra}"
+        put (if isA then { st with eofB := some v } else { st with eofA := some v }) me
+      | .bytes bs => put st { me with extra := me.extra + bs.length }
+      | .pending => st
+      | _ => put (if isA then { st with eofB := some "E" } else { st with eofA := some "E" }) { me with done := true }
+    else put st { me with done := true }
+
+def progRun (ts : List Transfer) (close : String) : Nat → ProgSt → ProgSt
+  | 0, st => st
+  | fuel + 1, st =>
+    if st.a.done && st.b.done then st
+    else progRun ts close fuel (sideStep ts close false (sideStep ts close true st))
+
+def parseTransfer (t : String) : Option Transfer :=
+  let side := t.take 1
+  match ((t.drop 1).toString.splitOn ".").map natTok with
+  | [len, w, r, _] => if side.toString == "a" || side.toString == "b" then some { fromA := side.toString == "a", len := len, wchunk := w, rbuf := r } else none
+  | _ => none
+
+/-- `st prog <kind> <cap> ; <transfer>* ; <close>`   obs: `<verdict>* ; eof=<..> eof=<..>` -/
+def progLine (cap : Nat) (tts : List String) (close : String) (obs : List String) : Bool × Bool × String × String :=
+  let ts := tts.filterMap parseTransfer
+  if ts.length != tts.length then (false, false, "bad-line", "") else
+  let fuel := 4 * (ts.map (·.len)).sum + 64 * ts.length + 100
+  let st := progRun ts close fuel { d := { ab := { cap := cap }, ba := { cap := cap } } }
+  let verdicts := (List.range ts.length).map fun i => (st.res.lookup i).getD "stuck"
+  let has := fun (c : String) => (close.splitOn c).length > 1
+  let ea := if has "a" then st.eofA.getD "stuck" else "-"
+  let eb := if has "b" then st.eofB.getD "stuck" else "-"
+  let shown := " ".intercalate verdicts ++ s!" ; eof={ea} eof={eb}"
+  match splitSemi obs with
+  | [ors, [oa, ob]] =>
+    let cls : List String :=
+      (if ors.any (·.startsWith "bad") then ["C18/bytes-altered-in-transit"] else []) ++
+      (if ors.any (fun o => o.startsWith "short" || o == "stuck" || o == "E") then ["C18/bytes-written-and-flushed-not-delivered"] else []) ++
+      (if [oa, ob].any (fun o => o.startsWith "eof=extra") then ["C18/bytes-invented"] else []) ++
+      (if [oa, ob].any (fun o => o == "eof=stuck" || o == "eof=E") then ["C18/eof-not-propagated"] else []) ++
+      (if ors.length != ts.length then ["C18/unparsable-observation"] else [])
+    (" ".intercalate obs == shown, cls.isEmpty, if cls.isEmpty then "-" else ",".intercalate cls, shown)
+  | _ => (false, false, "C18/unparsable-observation", shown)
+
 /-- `st script <layer>* ; <rev>* ; <wev>* ; <op>*`   obs: `<res>* ; <written hex> <flushes> <shutdowns>`
     `st pipe <kind> <cap> ; <pop>*`                   obs: `<res>*` -/
 def driverLine (inp obs : List String) : Bool × Bool × String × String :=
@@ -74,6 +203,10 @@ def driverLine (inp obs : List String) : Bool × Bool × String × String :=
          v.isNone, v.getD "-", shown)
       | _ => (false, false, "C18/unparsable-observation", shown)
     | _, _ => (false, false, "bad-line", "")
+  | "prog" :: _kind :: cap :: ";" :: rest =>
+    (match splitSemi rest with
+     | [tts, [close]] => progLine (natTok cap) tts close obs
+     | _ => (false, false, "bad-line", ""))
   | "pipe" :: kind :: cap :: ";" :: ops =>
     let ops := ops.filterMap parsePOp
     let d0 : Duplex := { ab := { cap := natTok cap }, ba := { cap := natTok cap } }
